@@ -183,6 +183,7 @@ def sha(s):
     return hashlib.sha256(s.encode()).hexdigest()
 
 PRELUDE = """// GENERATED by /verif/vlib/assemble.py from /repo/src -- do not edit
+#![feature(allocator_api)]
 #![allow(unused_imports, unused_variables, unused_mut, unused_braces, unused_parens, dead_code, non_snake_case, unused_assignments, redundant_semicolons)]
 use vstd::prelude::*;
 verus! {
